@@ -159,7 +159,7 @@ def label_to_op(name, args):
         return "%s %s" % (op, pstr(p))
     if op in ("copy", "rename"):
         return "%s %s %s %d" % (op, pstr(p), pstr(q), k)
-    if op in ("dunlink", "symlink"):
+    if op in ("dunlink", "symlink", "dcreated"):
         return "%s %s %d" % (op, pstr(p), k)
     raise ValueError(op)
 
@@ -188,7 +188,9 @@ def rand_fs_exec(rng, nops):
                 hopen = False
             continue
         x = rng.random()
-        if x < 0.12:
+        if x < 0.04:
+            ops.append("dcreated %s %d" % (p, rng.randint(0, 1)))
+        elif x < 0.12:
             ops.append("dcreate " + p)
         elif x < 0.27:
             ops.append("put %s %d %s" % (p, rng.choice([2, 3, 6, 10, 7]), d))
